@@ -40,7 +40,7 @@ type c04Call struct {
 	rywBad   string // a read inside the transaction that missed the transaction's own write
 }
 
-var c04Kinds = []string{"inc", "inc", "inc", "insert", "cas", "delete", "transfer", "transfer", "read", "read", "count", "push"}
+var c04Kinds = []string{"inc", "inc", "inc", "insert", "cas", "claim", "claim", "delete", "transfer", "transfer", "read", "read", "count", "push"}
 
 func genC04(t *rapid.T) bson.D {
 	na := rapid.IntRange(2, 8).Draw(t, "actors")
@@ -132,6 +132,24 @@ func c04Exec(env *hEnv, c *c04Call, sess lungo.ISession) {
 		setErr(err)
 		if err == nil {
 			c.beforeN, _ = getD(before, "n").(int64)
+			c.modified = 1
+		}
+	case "claim":
+		// sorted find-and-modify on mutable fields ("take the fullest
+		// counter"): which document it acts on depends on the state at its
+		// serialisation point
+		var before bson.D
+		err := hot.FindOneAndUpdate(ctx, bson.D{{Key: "n", Value: bson.D{{Key: "$gte", Value: int64(100 + c.k)}}}}, bson.D{{Key: "$inc", Value: bson.D{{Key: "n", Value: int64(-2)}}}, {Key: "$push", Value: bson.D{{Key: "log", Value: c.cid}}}},
+			options.FindOneAndUpdate().SetSort(bson.D{{Key: "n", Value: -1}, {Key: "_id", Value: 1}})).Decode(&before)
+		c.beforeN = -1
+		if err == mongo.ErrNoDocuments {
+			return
+		}
+		setErr(err)
+		if err == nil {
+			c.beforeN, _ = getD(before, "n").(int64)
+			id, _ := getD(before, "_id").(int32)
+			c.matched = int64(id) + 1
 			c.modified = 1
 		}
 	case "transfer":
@@ -360,7 +378,7 @@ func c04Check(prog [][]*c04Call, env *hEnv, initial *lungo.Catalog, initLen int,
 	for _, c := range all {
 		wantEvents := 0
 		switch c.kind {
-		case "inc", "cas", "insert":
+		case "inc", "cas", "claim", "insert":
 			if c.err == "" && c.modified > 0 {
 				wantEvents = 1
 			}
@@ -509,6 +527,13 @@ func c04Check(prog [][]*c04Call, env *hEnv, initial *lungo.Catalog, initLen int,
 		case "cas":
 			if c.err == "" && c.modified == 1 {
 				want--
+				if logged[c.cid] != 1 {
+					return fmt.Errorf("lost update: %s reported success but its mark occurs %d times in the documents", c.cid, logged[c.cid])
+				}
+			}
+		case "claim":
+			if c.err == "" && c.modified == 1 {
+				want -= 2
 				if logged[c.cid] != 1 {
 					return fmt.Errorf("lost update: %s reported success but its mark occurs %d times in the documents", c.cid, logged[c.cid])
 				}
